@@ -13,6 +13,7 @@ void h_getheader(void) {
     __CPROVER_assume(plen <= MAXP);
     INPUT_BUF(hdr, proof, plen, 16);   /* only the first <= 10 bytes can influence the header */
     ret = secp256k1_rangeproof_getheader_impl(&offset, &exp, &mantissa, &scale, &minv, &maxv, proof, plen);
+    WITNESS_BUF(hdr, proof, plen, 16);
     /* specification, written from include/secp256k1_rangeproof.h and the proof format description */
     if (plen < 65) s_ok = 0;
     else {
@@ -41,7 +42,6 @@ void h_getheader(void) {
         __CPROVER_assert(minv == s_min && maxv == (uint64_t)(s_max + s_min) && scale == (uint64_t)s_scale, "C10 getheader: min, max, scale equal the specification");
         __CPROVER_assert(maxv >= minv && exp <= 18 && mantissa <= 64 && offset <= plen, "C10 getheader: reported range is sane and offset inside the proof");
     }
-    WITNESS_BUF(hdr, proof, plen, 16);
     if (ret && (h & 64) && (h & 32)) REACH("getheader accepts header with range and min");
     if (!ret && plen >= 65) REACH("getheader rejects a long-enough proof");
     if (ret && s_exp == 18) REACH("getheader accepts exponent 18");
